@@ -279,6 +279,20 @@ End Conv.
 
 Definition j2t (D : defs) (o : jopts) (t : ty) (j : json) : res := j2t_val strict D o t 1 j.
 
+(* BinaryConv.do (conv/j2t/impl.go) in front of the converter, as documented there:
+   * an empty body stands for the empty struct (a bare STOP); for any other descriptor type it is an error;
+   * "special case for unquoted json string": with a top-level STRING / binary descriptor a text whose FIRST byte is not the
+     double quote (34) is not JSON at all — the whole text is the string (it is quoted by the Go side and handed to the converter; for a
+     binary descriptor it is then base64-decoded unless NoBase64Binary);
+   * everything else is the prefix parse of the top-level value: leading blanks are skipped, bytes after the value
+     (blanks or anything else) are never looked at, a text that ends inside the value is an error. *)
+Definition is_str_ty (t : ty) : bool := match t with TString | TBinary => true | _ => false end.
+Definition j2t_do (P : policy) (D : defs) (o : jopts) (t : ty) (text : list Z) : res :=
+  match text with
+  | [] => match t with TStruct _ => Ok [0] | _ => Err E_PARSE end
+  | c :: _ => if is_str_ty t && negb (c =? 34) then j2t_val P D o t 1 (JStr text) else j2t_text P D o t text
+  end.
+
 (* which JSON kinds a type admits (null is handled by the containers) *)
 Definition kind_ok (o : jopts) (t : ty) (j : json) : bool :=
   match j, t with
